@@ -869,3 +869,7 @@ package genql
 //@   at-call NewEncoder assert gob-form-goes-into-a-buffer-of-this-call[C18]: typeis(arg0, *bytes.Buffer) && fresh(arg0.(*bytes.Buffer))
 //@ func EncodeFunc
 //@   at-call NewEncoder assert gob-form-goes-into-a-buffer-of-this-call[C18]: typeis(arg0, *bytes.Buffer) && fresh(arg0.(*bytes.Buffer))
+
+// Reader resolves a lazily evaluated CTE in its `func() (any, error)` cases while BuildCte and BuildFromAliasedTable spell
+// the type CteEvaluation: the two must be one type (an alias), or a CTE first read through a path selector is rejected
+//@ same-type [C07] CteEvaluation == func() (any, error)
